@@ -8,6 +8,7 @@ for d in seeded/*/; do
   n=$(basename "$d")
   ok=0; for p in $PAT; do case "$n" in $p*) ok=1;; esac; done
   [ $ok = 1 ] || continue
+  [ -f "$d/meta.json" ] || continue
   prop=$(/venv/bin/python -c "import json;print(json.load(open('$d/meta.json'))['property'])")
   [ "$n" = "C05-m2-align-only-if-periodic" ] && prop=C17
   out=$(/verif/tools/try_mutation.sh "/verif/$d/patch.diff" $prop --tier quick 2>&1 | tail -1)
